@@ -327,7 +327,7 @@ func (g *ProgGen) Term(ctx []Var, A *ast.Ty) *ast.Term {
 		return t
 	}
 	negRight := a.K == ast.KLolli || a.K == ast.KWith || a.K == ast.KUp
-	if len(ctx) > 0 && !(negRight && g.Chance(40, "rightfirst")) {
+	if len(ctx) > 0 && !(negRight && g.Chance(55, "rightfirst")) {
 		return g.elim(ctx, A)
 	}
 	switch a.K {
